@@ -419,13 +419,62 @@ func ruleSrv(c *Ctx) {
 			return true
 		})
 	}
-	// O2
+	// O2 (resolved callees, not text)
 	if f := p.FuncNamed("srv.Cleanup"); f != nil {
-		s := exprStr0(f.Body)
 		pos := p.Position(f.Pos())
-		R.Check(strings.Contains(s, "WorkerGroupConfContinueOnError("), "O2", "srv.Cleanup/ContinueOnError", pos, "option passed", "Cleanup no longer passes WorkerGroupConfContinueOnError: the first failing cleanup stops the rest")
-		R.Check(strings.Contains(s, "WorkerGroupConfContinueOnPanic("), "O2", "srv.Cleanup/ContinueOnPanic", pos, "option passed", "Cleanup no longer passes WorkerGroupConfContinueOnPanic: a panicking cleanup stops the rest")
-		R.Check(strings.Contains(s, ".WithRecover()"), "O2", "srv.Cleanup/WithRecover", pos, "each job is recover-wrapped", "cleanup jobs are not recover-wrapped")
+		info := f.Info()
+		var pfe *ast.CallExpr
+		ast.Inspect(f.Body, func(x ast.Node) bool {
+			if call, ok := x.(*ast.CallExpr); ok && callName(info, call) == "itertool.ParallelForEach" {
+				pfe = call
+			}
+			return true
+		})
+		if pfe == nil || len(pfe.Args) < 3 {
+			R.Fail("O2", "srv.Cleanup/ParallelForEach", pos, "the cleanup jobs are no longer run through itertool.ParallelForEach(ctx, jobs, fn, options…)")
+		} else {
+			opts := map[string]bool{}
+			for _, a := range pfe.Args[3:] {
+				if oc, ok := ast.Unparen(a).(*ast.CallExpr); ok {
+					opts[callName(info, oc)] = true
+				}
+			}
+			R.Check(opts["fun.WorkerGroupConfContinueOnError"], "O2", "srv.Cleanup/ContinueOnError", pos, "option passed", "Cleanup no longer passes WorkerGroupConfContinueOnError: the first failing cleanup stops the rest")
+			R.Check(opts["fun.WorkerGroupConfContinueOnPanic"], "O2", "srv.Cleanup/ContinueOnPanic", pos, "option passed", "Cleanup no longer passes WorkerGroupConfContinueOnPanic: a panicking cleanup stops the rest")
+			lit, isLit := ast.Unparen(pfe.Args[2]).(*ast.FuncLit)
+			recovered, collected, nonNil := false, false, ""
+			if isLit {
+				ast.Inspect(lit.Body, func(x ast.Node) bool {
+					switch t := x.(type) {
+					case *ast.CallExpr:
+						switch callName(info, t) {
+						case "fun.Worker.WithRecover":
+							recovered = true
+						case "erc.(*Collector).Add":
+							// the job's own result goes to the collector
+							if len(t.Args) == 1 {
+								ast.Inspect(t.Args[0], func(y ast.Node) bool {
+									if c2, ok := y.(*ast.CallExpr); ok && callName(info, c2) == "fun.Worker.Run" {
+										collected = true
+									}
+									return true
+								})
+							}
+						}
+					case *ast.ReturnStmt:
+						for _, r := range t.Results {
+							if !isNilIdent(info, r) {
+								nonNil = p.Position(t.Pos())
+							}
+						}
+					}
+					return true
+				})
+			}
+			R.Check(isLit && recovered, "O2", "srv.Cleanup/WithRecover", pos, "each job is recover-wrapped", "cleanup jobs are not recover-wrapped")
+			R.Check(isLit && collected && nonNil == "", "O2", "srv.Cleanup/job-error-collected", pos, "the job's error goes to the service's collector and the worker function returns nil",
+				"the per-job function hands the job's error to the worker group ("+nonNil+") instead of the service's own collector: the group's classification treats io.EOF and context errors as terminal for that worker and does not record them, so such a job's error is lost and, with enough of them, the remaining accepted jobs never run")
+		}
 	} else {
 		R.Fail("O2", "srv.Cleanup", "-", "not found")
 	}
@@ -574,6 +623,7 @@ func checkRunAwaits(c *Ctx, run *Func) {
 			// (a) awaited in the same goroutine
 			direct := false
 			var queue types.Object
+			var regCall *ast.CallExpr
 			walkNoLit(g.Body, func(y ast.Node) bool {
 				if call, ok := y.(*ast.CallExpr); ok && callName(info, call) == "srv.(*Service).Wait" && exprStr(recvExpr(call)) == member && fl.Dominates(start, call) {
 					direct = true
@@ -594,6 +644,7 @@ func checkRunAwaits(c *Ctx, run *Func) {
 							if s := info.Selections[se]; s != nil && s.Kind() == types.MethodVal && fname(s.Obj().(*types.Func).Origin()) == "srv.(*Service).Wait" {
 								if id, ok := ast.Unparen(recvExpr(call)).(*ast.Ident); ok {
 									queue = info.Uses[id]
+									regCall = call
 								}
 							}
 						}
@@ -607,6 +658,36 @@ func checkRunAwaits(c *Ctx, run *Func) {
 			}
 			if queue == nil {
 				R.Fail("O4", at, pos, fmt.Sprintf("%s starts %s with Run's own context and neither awaits it nor registers its Wait: when Run returns the service's context is cancelled and %s is stopped at once, although neither it nor the group's context ended", run.Name, member, member))
+				return true
+			}
+			// the registration happens whatever Start returned (a member that was already running or already
+			// finished reports an error from Start and must be awaited all the same): it is a top-level defer
+			// registered before Start, or every path from Start to the goroutine's exit passes it
+			always := false
+			for x := p.Parent(regCall); x != nil && x != ast.Node(g.Body); x = p.Parent(x) {
+				if ds, ok := x.(*ast.DeferStmt); ok {
+					if _, top := p.Parent(ds).(*ast.BlockStmt); top && p.Parent(ds) == ast.Node(g.Body) && fl.Dominates(ds, start) {
+						always = true
+					}
+				}
+			}
+			if !always {
+				if from, ok := fl.At(start); ok {
+					_, skips := fl.pathToExitAvoiding(from, func(n ast.Node) bool {
+						hit := false
+						ast.Inspect(n, func(y ast.Node) bool {
+							if y == ast.Node(regCall) {
+								hit = true
+							}
+							return !hit
+						})
+						return hit
+					})
+					always = !skips
+				}
+			}
+			if !always {
+				R.Fail("O4", at, pos, fmt.Sprintf("%s registers %s.Wait only on some paths after Start (%s): a member whose Start reports an error because it is already running or already finished is never awaited, so the group returns before that member has returned and its failure is missing", run.Name, member, p.Position(regCall.Pos())))
 				return true
 			}
 			// (b) the registered waiters are invoked and joined inside Run itself
